@@ -321,6 +321,57 @@ def run(ctx, impl_only=False):
             elif d:
                 ctx.violate(case, 'the same instant in another timezone is reported: %s' % str(d)[:120])
             ctx.count('normaliser:same_instant')
+    # numeric dictionary keys under significant_digits together with an option that switches key cleaning on: keys (and float leaves) moved by
+    # less than the tolerance still name the same entry -- for every number of digits, 0 included
+    for digits in (0, 1, 3):
+        step = 10.0 ** (-digits)
+        def near(v, digits=digits, step=step):
+            base = float(('%.' + str(digits) + 'f') % v)
+            return base + ctx.rng.choice([0.2, 0.3, -0.2] if base != 0 else [0.2, 0.3]) * step
+        for second in (dict(ignore_numeric_type_changes=True), dict(ignore_string_case=True), dict(ignore_string_type_changes=True), dict(use_enum_value=True)):
+            for i in range(max(3, n // 20)):
+                ks = ctx.rng.sample([3.0, 7.5, 12.25, 0.0, -4.0, 100.5, 2.5], ctx.rng.randint(1, 3))
+                if len({('%.' + str(digits) + 'f') % k for k in ks}) < len(ks):
+                    continue
+                inner = {k: ctx.rng.choice([1, 'a', 2.5, [1.5, 'x']]) for k in ks}
+                x = ctx.rng.choice([lambda d: d, lambda d: {'m': d, 'z': 1}, lambda d: [d, 0]])(inner)
+                def alt(v):
+                    if isinstance(v, dict):
+                        return {(near(k) if isinstance(k, float) else k): alt(w) for k, w in v.items()}
+                    if isinstance(v, list):
+                        return [alt(w) for w in v]
+                    return near(v) if type(v) is float else v
+                y = alt(x)
+                kw = dict(second, significant_digits=digits)
+                ctx.evaluations += 1
+                d, e = safe_diff(x, y, **kw)
+                case = {'clause': 'normaliser', 'option': 'numeric keys within the tolerance of significant_digits=%d, with %s' % (digits, sorted(second)[0]), 'x': repr(x), 'y': repr(y), 'zip': False}
+                ctx.count('normaliser:significant_digits_keys')
+                ctx.nontriv(('sigkeys', repr(x), repr(y), repr(sorted(kw.items()))))
+                if e is not None:
+                    ctx.violate(case, 'DeepDiff raised %s: %s' % (type(e).__name__, str(e)[:80]))
+                elif d:
+                    ctx.violate(case, 'keys and leaves moved by less than the tolerance of significant_digits=%d give a non-empty diff: %s' % (digits, str(d)[:150]))
+    # truncation is done on the datetime's own clock: two aware datetimes of one local day (hour) differ only in what truncate_datetime='day'
+    # ('hour') drops, whatever default_timezone they are converted to afterwards and however far their offset is from it
+    TZS = [datetime.timezone(datetime.timedelta(hours=-5)), datetime.timezone(datetime.timedelta(hours=5, minutes=30)), datetime.timezone(datetime.timedelta(hours=9)), UTC]
+    for tz in TZS:
+        for unit, (wa, wb) in (('day', ((23, 41, 7), (1, 2, 3))), ('day', ((0, 0, 1), (23, 59, 59))), ('hour', ((18, 5, 0), (18, 55, 30))), ('minute', ((7, 7, 1), (7, 7, 59)))):
+            a_ = datetime.datetime(2020, 1, 1, *wa, tzinfo=tz); b_ = datetime.datetime(2020, 1, 1, *wb, tzinfo=tz)
+            for dz in (None, TZ5, datetime.timezone(datetime.timedelta(hours=9))):
+                kw = dict(truncate_datetime=unit)
+                if dz is not None:
+                    kw['default_timezone'] = dz
+                for x, y, extra in [(a_, b_, {}), ({'k': a_}, {'k': b_}, {}), ([a_, 1], [b_, 1], {}), ({a_}, {b_}, {}), ((a_, 'x'), (b_, 'x'), {}), ([1, a_], [b_, 1], {'ignore_order': True})]:
+                    ctx.evaluations += 1
+                    d, e = safe_diff(x, y, **dict(kw, **extra))
+                    case = {'clause': 'normaliser', 'option': 'same local %s, offset %s, options %r' % (unit, tz, sorted(dict(kw, **extra))), 'x': repr(x), 'y': repr(y), 'zip': False}
+                    ctx.count('normaliser:truncate_own_clock')
+                    ctx.nontriv(('trunc', repr(x), repr(y), repr(sorted(kw))))
+                    if e is not None:
+                        ctx.violate(case, 'DeepDiff raised %s' % type(e).__name__)
+                    elif d:
+                        ctx.violate(case, 'two datetimes of one local %s give a non-empty diff under truncate_datetime=%r: %s' % (unit, unit, str(d)[:150]))
     # datetimes where DeepDiff compares by digest (members of sets and frozensets, tuples in sets, items under ignore_order):
     # the digest must read a naive datetime the way the comparison of two leaves does -- in the configured default timezone
     NAIVE = [datetime.datetime(2020, 2, 29, 23, 59, 59), datetime.datetime(2024, 5, 1, 0, 15), datetime.datetime(2023, 12, 31, 22, 0, 0, 5)]
